@@ -50,6 +50,10 @@ class _Norm:
     cdf = staticmethod(_vec(lambda t: (1 + sp.erf(sp.sympify(t) / sp.sqrt(2))) / 2))
 
     @staticmethod
+    def logpdf(x, loc=0, scale=1):
+        return _vec(lambda t: -sp.sympify(t) ** 2 / 2 - sp.log(sp.sqrt(2 * sp.pi)))((x - loc) / scale) - (sp.log(scale) if scale != 1 else 0)
+
+    @staticmethod
     def logcdf(x, loc=0, scale=1):
         return _vec(lambda t: sp.log((1 + sp.erf(sp.sympify(t) / sp.sqrt(2))) / 2))((x - loc) / scale)
 
